@@ -117,6 +117,14 @@ CHECKS['C12'] = ('exploration',
          'Completeness rests on the per-variable degree bounds read off the code (sums and products only), tested by the dilated grids. Small-integer '
          'float64 arithmetic is exact.',
          'DESIGN.md 2.3, 3/C12')
+CHECKS['C13'] = ('exploration',
+         'integer grids with exact comparison for the linear maps + exhaustive products over rigid motions, twists and differential motions',
+         'skew/vex, skewa/vexa (so(2), so(3), se(2), se(3)), skew(a) b = a x b, cross, norm, normsq, colvec on integer grids and their dilations (exact); '
+         'Ad homomorphism / inverse / Ad(T) S = vee(T [S] T^-1) over all pairs of the SE(3) generator set with |t| <= 1e3 and a twist alphabet; '
+         'exp(ad S) = Ad(exp S) against a 50-digit 6x6 exponential; tr2jac, SE3.jacob, Twist3.ad/Ad; tr2delta/delta2tr round trip, two-argument form '
+         'and first-order agreement with the logarithm for |d| = 1e-9..1e-2.',
+         'Bounded to the enumerated motions/twists; linear identities complete by linearity on basis grids.',
+         'DESIGN.md 3/C13')
 PENDING = {}
 
 def main():
